@@ -1679,11 +1679,25 @@ func encWanted(codec string) bool { return strHasPrefix(codec, "avc") || strHasP
 //@   wiring
 //@   ensures encryptable: result == nil && encWanted(r.Codecs) ==> r.PreEncrypted || r.encData != nil
 
+// addUTCTimings touches nothing but the UTCTiming list of the MPD (frame only).
+//@ func addUTCTimings
+//@   requires mpd != nil && cfg != nil
+//@   assigns  mpd.UTCTimings, mpd.UTCTimings[*], cfg.UTCTimingMethods
+//@   allocates mpd.DescriptorType, []*mpd.DescriptorType, []any
+//@   loop 1 invariant 0 <= rangeidx && rangeidx <= len(cfg.UTCTimingMethods) && mpd != nil && cfg != nil
+//@   loop 1 invariant fresh(mpd.UTCTimings) || sameArray(mpd.UTCTimings, old(mpd.UTCTimings)) || mpd.UTCTimings == nil
+
+// Seconds2DurPtr of the dash-mpd library: a pointer to the duration in nanoseconds.
+//@ extern func github.com/Eyevinn/dash-mpd/mpd.Seconds2DurPtr(seconds) (p)
+//@   ensures p != nil && fresh(p) && int(*p) == seconds * 1000000000
+//@   allocates mpd.Duration
+
 // LiveMPD: protection is only announced for assets that are not pre-encrypted, and the
 // ClearKey default_KID is THE server key id (the one in the init segments' tenc boxes).
 //@ func LiveMPD
 //@   wiring
 //@   callsite calcWrapTimes requires windowEndsAtStop: (cfg.StopTimeS == nil ==> arg_nowMS == nowMS && !afterStop) && (cfg.StopTimeS != nil ==> arg_nowMS == min(nowMS, *cfg.StopTimeS*1000) && afterStop == (*cfg.StopTimeS*1000 < nowMS))
+//@   callsite calcWrapTimes requires windowDepthFromCfg: cfg.TimeShiftBufferDepthS != nil ==> int(arg_tsbd) == *cfg.TimeShiftBufferDepthS * 1000000000
 //@   callsite makeMPDStatic requires staticOnlyAfterStop: afterStop && cfg.StopTimeS != nil && arg1 == *cfg.StopTimeS - cfg.StartTimeS
 //@   callsite addPatchLocation requires patchOnlyWhileLive: !afterStop
 //@   callsite NewContentProtection requires notPreEncrypted: !a.refRep.PreEncrypted
